@@ -224,11 +224,16 @@ def account_copy(P, R, writers):
                     ub = const_of(ev['rhs']) + 1
                 else:
                     ub = 10 ** 9
-            if ev['k'] == 'store' and ev['lhs'].get('k') == 'idx' and is_field(ev['lhs']['base'], 'account') and const_of(ev.get('rhs')) == 0:
+            # the terminator goes where the copy stopped (the copy index itself), or the whole field was cleared first:
+            # a NUL at a fixed position leaves the tail of an earlier, longer stamp behind a shorter one
+            if ev['k'] == 'store' and ev['lhs'].get('k') == 'idx' and is_field(ev['lhs']['base'], 'account') and const_of(ev.get('rhs')) == 0 and is_var(ev['lhs']['index'], iv):
+                done = True
+            if ev['k'] == 'call' and ev.get('callee') == 'memset' and ev['args'] and is_field(ev['args'][0], 'account') and const_of(ev['args'][1]) == 0 \
+                    and const_of(ev['args'][2]) == ext:
                 done = True
             return (min(ub, 10 ** 9), done)
         _, at_exit, _, _ = f.forward((10 ** 9, False), on_event, on_edge)
-        R.ob('C05.BND.1', bool(at_exit) and all(d for _, d in at_exit), f, 'the stored account is NUL-terminated on every path', key='copy:terminated')
+        R.ob('C05.BND.1', bool(at_exit) and all(d for _, d in at_exit), f, 'the stored account is NUL-terminated where the copy stopped (or the field is cleared first) on every path', key='copy:terminated')
     R.floor('C05.BND.1', 4)
 
 
@@ -400,4 +405,13 @@ def run(P, R, tier):
     # texts are relayed verbatim only if the line is not edited on the way
     from . import c08
     c08.line_buffer_writes(P, R, 'C05.WMC.2')
+    # what a service said counts once, while it is awaited: a repeated reply must not stamp an account or refuse
+    # an approved client, and a pending service's refusal must not be lost
+    from . import c04 as _c04
+    R4 = Remap(R, {'C04.GRD.2': 'C05.GRD.3', 'C04.GRD.3': 'C05.GRD.3'})
+    cl4 = _c04.lookup_discipline(P, R4)
+    _c04.effects_guarded(P, R4, cl4)
+    _c04.lookup_skips(P, R4, cl4)
+    from .. import holds
+    holds.soft_hold_typestate(P, R, 'C05.GRD.4')
     return EXPLANATION, ASSUMPTIONS
